@@ -455,6 +455,9 @@ LostOnlyTrailing(o, e) == e.trailCmt # 0 /\ LostWithin(Base(o), e.remBag, e.piec
 (* every lost comment stood in the window of the removed region (between the last code token before it and the    *)
 (* first code token after it, DESIGN 4-C04); e.winCmts = sorted canonical ids of the comments in that window       *)
 LostInWindow(o, e) == LostWithin(Base(o), e.remBag, e.pieceBag, IsComment, e.winCmts)
+(* ... narrower: every lost comment stood above the header of the emptied optional block or on the header's own   *)
+(* line (e.hdrCmts, oracle fact) - the part of the window that goes with the header                               *)
+LostWithHeader(o, e) == LostWithin(Base(o), e.remBag, e.pieceBag, IsComment, e.hdrCmts)
 
 (* the cut removes every statement of an optional block, so the block's `else:` / `finally:` header goes too *)
 EmptiesBlock(s, e) ==
@@ -465,6 +468,7 @@ EmptiesBlock(s, e) ==
 CutClass(s, o, e) ==
   (IF e.slice THEN "slice" ELSE IF StmtLikeKind(e.ekind) THEN "single-statement-element" ELSE "single-expression-element")
   \o (IF ~AlignedOk(o, e) \/ LostComments(o, e) = {} THEN ""
+      ELSE IF EmptiesBlock(s, e) /\ LostWithHeader(o, e) THEN "+header-comments"
       ELSE IF LostOnlyTrailing(o, e) THEN "+trailing-line-comment"
       ELSE IF LostInWindow(o, e) THEN "+window-comments" ELSE "")
   \o (IF EmptiesBlock(s, e) THEN "+emptied-block" ELSE "")
